@@ -41,3 +41,6 @@ pub struct NoiseSocketState {
     /// Length of the encrypt buffer.
     pub encrypt_buffer_len: usize,
 }
+
+/// The real `TcpConnection::negotiate_connection` (incl. the dialed-peer comparison) over a TCP stream.
+pub use crate::transport::tcp::verif_negotiate_connection as tcp_negotiate_connection;
